@@ -4,7 +4,7 @@
 //   table <f|d> <L>              -> rows=<n> <thr bits hex>:<i>:<j> ...      (compile-time table; "rt!=ct" appended if a
 //                                                                            run-time evaluation of the same function differs)
 //   llr <f|d> <L> <bits hex>     -> <i> <j>
-//   sweep <f|d> <L> <lo> <hi>    -> checked=<n> bad=<k> [first=<bits>:<what>:<i>:<j>:<detail>]
+//   sweep <f|d> <L> <lo> <hi>    -> checked=<n> bad=<k> {fail=<count>:<first bits>:<what>:<i>:<j>:<detail>}   (one per kind of failure)
 //        property oracle on every bit pattern lo <= b < hi (hex); adjacent pairs (b, b+1) are compared for the
 //        monotonicity clauses, so consecutive shards overlap by one pattern and nothing falls between shards.
 #include "Util.h"
@@ -103,10 +103,17 @@ template <typename F, size_t L> static void sweep(uint64_t lo, uint64_t hi)
     using U = typename bits_of<F>::type;
     constexpr U SIGN = U(1) << (sizeof(U) * 8 - 1);
     uint64_t checked = 0, bad = 0;
-    char first[200] = "", detail[80];
+    char detail[80];
     bool have_prev = false; int pa = 0, pc = 0; F px = 0;
+    // first failing pattern and count per kind of failure (so that one kind cannot hide another)
+    struct kind_t { const char* what; uint64_t n; char first[160]; };
+    std::vector<kind_t> kinds;
     auto report = [&](uint64_t b, const char* what, int a, int c, const char* d) {
-        if (!bad++) std::snprintf(first, sizeof first, " first=%0*" PRIx64 ":%s:%d:%d:%s", bits_of<F>::W, b, what, a, c, d[0] ? d : "-");
+        ++bad;
+        for (auto& k : kinds) if (!std::strcmp(k.what, what)) { ++k.n; return; }
+        kind_t k{what, 1, ""};
+        std::snprintf(k.first, sizeof k.first, "%0*" PRIx64 ":%s:%d:%d:%s", bits_of<F>::W, b, what, a, c, d[0] ? d : "-");
+        kinds.push_back(k);
     };
     for (uint64_t b = lo; b < hi; ++b) {
         F x = from_bits<F>(b);
@@ -129,7 +136,9 @@ template <typename F, size_t L> static void sweep(uint64_t lo, uint64_t hi)
         }
         have_prev = true; pa = a; pc = c; px = x;
     }
-    std::printf("checked=%" PRIu64 " bad=%" PRIu64 "%s\n", checked, bad, first);
+    std::printf("checked=%" PRIu64 " bad=%" PRIu64, checked, bad);
+    for (auto& k : kinds) std::printf(" fail=%" PRIu64 ":%s", k.n, k.first);
+    std::printf("\n");
 }
 
 template <typename F> static bool dispatch(const std::vector<std::string>& t)
